@@ -319,6 +319,20 @@ func (s *Sink) WaitFor(deadline time.Time, cond func([]Req) bool) bool {
 	}
 }
 
+// Settle waits (up to 5 s) until every request seen so far has been answered, then margin more: the client side
+// reads the answer and writes its notification-log entry only after that.
+func (s *Sink) Settle(margin time.Duration) {
+	s.WaitFor(time.Now().Add(5*time.Second), func(reqs []Req) bool {
+		for _, r := range reqs {
+			if r.Done.IsZero() {
+				return false
+			}
+		}
+		return true
+	})
+	time.Sleep(margin)
+}
+
 // IDs lists the values of label "id" of the alerts with the given status ("" = any) of a webhook payload, sorted.
 func (m HookMsg) IDs(status string) []string {
 	var out []string
